@@ -229,12 +229,35 @@ def run(run):
                                 slot = x[2]
             if slot:
                 per.setdefault(slot, []).append((n, conds))
+        deep = list(T.walk_deep(F, fn["body"], depth=2))
+        loads_deep = [x for x in deep if T.is_call(x, "to_load_def")]
+        # generic form: the slots are collected (array / vec / tuple) and handled by one loop, possibly through a helper
+        collected = set()
+        for x in T.walk_fn(F, fn):
+            if x.get("k") in ("Array", "Tuple") or T.is_call(x, ("vec", "from", "into_iter", "iter_mut")):
+                names = {y["fn"] for y in T.walk(x) if y.get("k") == "Field" and y.get("fn") in ("input0", "input1", "input2")}
+                if len(names) >= 2:
+                    collected |= names
+        mentioned = {y["fn"] for y in deep if y.get("k") == "Field" and y.get("fn") in ("input0", "input1", "input2")}
+        generic_form = bool(collected) and bool(loads_deep) and bool(T.for_loops(fn["body"]))
+        temps_by_slot = {}
         for slot in ("input0", "input1", "input2"):
             ent = per.get(slot)
             key = "implicit-load|%s" % slot
             if not ent:
-                run.violated("R3", key, "operands in slot %s that are RAM addresses are not turned into explicit loads" % slot, site)
+                if generic_form and slot in collected:
+                    run.holds("R3", key, "handled by the common loop over the operand slots", site)
+                    run.holds("R3", key + "|rewrites-same-slot", "helper form", site) if any(x.get("k") == "Assign" and x["l"].get("k") == "Deref" for x in deep) else run.undecided("R3", key + "|rewrites-same-slot", "rewrite of the slot not recognised", site)
+                elif slot not in mentioned and (mentioned or per):
+                    run.violated("R3", key, "operands in slot %s that are RAM addresses are not turned into explicit loads: the slot is never looked at" % slot, site)
+                elif generic_form and slot not in collected:
+                    run.violated("R3", key, "operands in slot %s are not among the slots handled by the common loop (%s)" % (slot, sorted(collected)), site)
+                elif not loads_deep:
+                    run.violated("R3", key, "operands in slot %s that are RAM addresses are not turned into explicit loads: no load is created at all" % slot, site)
+                else:
+                    run.undecided("R3", key, "handling of slot %s not recognised" % slot, site)
                 continue
+            run.holds("R3", key, "", site)
             n, conds = ent[0]
             # the rewritten slot is the same slot, and the temp names differ per slot
             temp = sy.ev(n["a"][1], env)
@@ -243,24 +266,61 @@ def run(run):
             for w in writes:
                 tgt = w["a"][0] if w.get("k") == "Call" else w["l"]
                 chain = T.field_chain(tgt)[1]
-                src_ok = any(T.is_call(y, "to_load_def") and y is n for y in T.walk(fn["body"]))
                 if chain and chain[-1] == slot:
                     # written within the same guard
                     for w2, c2 in T.paths_to(fn["body"], lambda y: y is w):
                         if [id(c[1]) for c in c2] == [id(c[1]) for c in conds]:
                             same = True
-            run.check("R3", key + "|rewrites-same-slot", same, "the load temporary for %s must replace %s itself" % (slot, slot), F.loc(n))
-            per[slot] = temp
-        temps = [fmt(per[s]) for s in ("input0", "input1", "input2") if s in per and not isinstance(per[s], list)]
-        run.check("R3", "implicit-load|distinct-temporaries", len(set(temps)) == len(temps) and len(temps) == 3, "each operand slot needs its own temporary register (otherwise two RAM operands of one operation overwrite each other); found %s" % temps, site)
-        ms = T.find_matches(fn["body"], adt_suffix="JmpType")
+            other_slot_written = any((T.field_chain(w["a"][0] if w.get("k") == "Call" else w["l"])[1] or [None])[-1] in ({"input0", "input1", "input2"} - {slot}) and any([id(c[1]) for c in c2] == [id(c[1]) for c in conds] for w2, c2 in T.paths_to(fn["body"], lambda y, w=w: y is w)) for w in writes)
+            if same:
+                run.holds("R3", key + "|rewrites-same-slot", "", F.loc(n))
+            elif other_slot_written:
+                run.violated("R3", key + "|rewrites-same-slot", "the load temporary for %s replaces a DIFFERENT operand slot" % slot, F.loc(n))
+            else:
+                run.undecided("R3", key + "|rewrites-same-slot", "rewrite of %s not recognised" % slot, F.loc(n))
+            temps_by_slot[slot] = fmt(temp)
+        if len(temps_by_slot) == 3:
+            temps = list(temps_by_slot.values())
+            run.check("R3", "implicit-load|distinct-temporaries", len(set(temps)) == 3, "each operand slot needs its own temporary register (otherwise two RAM operands of one operation overwrite each other); found %s" % temps, site)
+        elif generic_form:
+            # the name must depend on the loop index / slot
+            fmts = [x for x in deep if T.is_call(x, ("format", "fmt", "must_use")) or (x.get("k") == "Call" and "format" in (x.get("f") or ""))]
+            idx_dep = any(any(y.get("k") in ("Var", "Upvar") and y.get("n") in ("index", "i", "slot", "idx", "n") for y in T.walk(a)) for x in loads_deep for a in x["a"][1:2]) or any(any(y.get("k") in ("Var", "Upvar") for y in T.walk(x)) for x in fmts)
+            lits = {T.show(x["a"][1]) for x in loads_deep if len(x["a"]) > 1 and T.peel(x["a"][1]).get("k") == "Lit"}
+            if idx_dep:
+                run.holds("R3", "implicit-load|distinct-temporaries", "temporary name built from the slot index", site)
+            elif lits:
+                run.violated("R3", "implicit-load|distinct-temporaries", "all operand slots use the same temporary register %s: two RAM operands of one operation overwrite each other" % sorted(lits), site)
+            else:
+                run.undecided("R3", "implicit-load|distinct-temporaries", "naming of the load temporaries not recognised", site)
+        else:
+            run.undecided("R3", "implicit-load|distinct-temporaries", "naming of the load temporaries not recognised", site)
+        # indirect jump targets: specialise on the mnemonic
+        from .lib import peval as PE
+        jm = [m for m in T.walk_fn(F, fn) if m.get("k") == "Match" and any(v_ in T.pat_variant_names(a["p"]) for a in m["arms"] for v_ in ("BRANCHIND", "CALLIND"))]
+        scr = {id(m["e"]) for m in jm} | {id(T.peel(m["e"])) for m in jm}
         ind = set()
-        for m in ms:
-            for v in ("BRANCHIND", "CALLIND"):
-                arms = T.arms_for_variant(m, v)
-                if arms and any(T.is_call(x, "to_load_def") for x in T.walk(arms[0]["b"])):
-                    ind.add(v)
-        run.check("R3", "implicit-load|indirect-jump-targets", ind == {"BRANCHIND", "CALLIND"}, "RAM-resident targets of BRANCHIND and CALLIND must be loaded explicitly; handled: %s" % sorted(ind), site)
+        for v in ("BRANCHIND", "CALLIND"):
+            spec = PE.Spec(F, assume=lambda n, v=v: ("enum", v) if id(n) in scr else None)
+            # the loop over the jumps of the block
+            roots = [b for (n_, p_, it, b) in T.for_loops(fn["body"]) if any(y.get("k") == "Field" and y.get("fn") == "jmps" for y in T.walk(it))]
+            nodes = [x for r_ in roots for x in spec.reach(r_, {})]
+            hit = False
+            for x in nodes:
+                if T.is_call(x, "to_load_def"):
+                    hit = True
+                elif x.get("k") == "Call" and "f" in x:
+                    g = F.by_path.get(x.get("r") or "") or F.by_path.get(x.get("f") or "")
+                    if g is not None and any(T.is_call(y, "to_load_def") for y in T.walk_deep(F, g["body"], depth=1)):
+                        hit = True
+            if hit:
+                ind.add(v)
+        if ind == {"BRANCHIND", "CALLIND"}:
+            run.holds("R3", "implicit-load|indirect-jump-targets", "", site)
+        elif not jm:
+            run.undecided("R3", "implicit-load|indirect-jump-targets", "no dispatch on the jump mnemonic found", site)
+        else:
+            run.violated("R3", "implicit-load|indirect-jump-targets", "RAM-resident targets of BRANCHIND and CALLIND must be loaded explicitly; for %s no load is reachable" % sorted({"BRANCHIND", "CALLIND"} - ind), site)
         # sub-register substitution covers every Expression slot
         mod = "pcode::subregister_substitution"
         cands = [f for f in F.fns if f["mod"].endswith(mod) and f["dk"] != "Closure" and "expn" not in f]
